@@ -278,6 +278,67 @@ def labelOf (line : String) : String :=
     | [] => []
   String.ofList (cut cs)
 
+/-- `("│  " | "   ")* ("├─ " | "╰─ ")` split off a line; rows without a branch glyph have no prefix -/
+def treePrefix (line : String) : String × String :=
+  let rec go (fuel : Nat) (acc : List Char) (cs : List Char) : Option (List Char × List Char) :=
+    match fuel with
+    | 0 => none
+    | fuel + 1 =>
+      match cs with
+      | a :: b :: c :: rest =>
+        if (a = '│' ∧ b = ' ' ∧ c = ' ') ∨ (a = ' ' ∧ b = ' ' ∧ c = ' ') then go fuel (c :: b :: a :: acc) rest
+        else if (a = '├' ∨ a = '╰') ∧ b = '─' ∧ c = ' ' then some ((c :: b :: a :: acc).reverse, rest)
+        else none
+      | _ => none
+  match go (line.length + 1) [] line.toList with
+  | some (p, r) => (String.ofList p, String.ofList r)
+  | none => ("", line)
+
+structure TLine where
+  depth : Nat
+  last : Bool
+  bars : List Bool       -- one per enclosing level below the top: is a continuation bar drawn?
+  label : String
+  deriving Repr, Inhabited
+
+/-- a row that opens a node: depth, corner/branch, bars, label; `none` for continuation rows -/
+def parseTLine (line : String) : Option TLine :=
+  if line.isEmpty then none else
+  let (pre, _) := treePrefix line
+  if pre.isEmpty then
+    -- a top-level row starts with its label; continuation rows start with a bar or a blank
+    if line.front = '│' ∨ line.front = ' ' then none else some ⟨0, true, [], labelOf line⟩
+  else
+    let cs := pre.toList
+    let n := cs.length / 3
+    let grp (i : Nat) : Char := cs.getD (3 * i) ' '
+    some ⟨n, grp (n - 1) = '╰', (List.range (n - 1)).map fun i => grp i = '│', labelOf line⟩
+
+/-- C20 on the printed text alone: every row's glyphs show its true position - corner exactly on the
+    last child of its parent, a continuation bar under exactly those ancestors that have later siblings,
+    depth growing by at most one. Returns the first offending row. -/
+def treeGlyphsOk (out : String) : Option String :=
+  let rows := (out.splitOn "\n").filterMap parseTLine
+  let arr := rows.toArray
+  let n := arr.size
+  (List.range n).findSome? fun i =>
+    let r := arr[i]!
+    if r.depth = 0 then none else
+    -- the rows after `i` up to the first one that is shallower than `r`
+    let later := ((List.range (n - i - 1)).map fun k => arr[i + 1 + k]!).takeWhile fun x => x.depth ≥ r.depth
+    let hasLaterSibling := later.any fun x => x.depth = r.depth
+    let prevDepth := if i = 0 then 0 else (arr[i - 1]!).depth
+    -- ancestors: the most recent earlier row of each smaller depth
+    let anc (d : Nat) : Option TLine := ((List.range i).reverse.map fun k => arr[k]!).find? fun x => x.depth ≤ d
+    let barsOk := (List.range (r.depth - 1)).all fun j =>
+      match anc (j + 1) with
+      | some a => a.depth = j + 1 ∧ r.bars.getD j false = !a.last
+      | none => false
+    if r.depth > prevDepth + 1 ∨ i = 0 then some s!"row {i} ({r.label}) is deeper than a child of the row above"
+    else if r.last = hasLaterSibling then some s!"row {i} ({r.label}) has {if r.last then "a corner but later siblings" else "a branch but no later sibling"}"
+    else if !barsOk then some s!"row {i} ({r.label}) has continuation bars that do not match its ancestors' positions"
+    else none
+
 /-- does some module hold a `bench_group` module and a generic benchmark function of the same name? (F7) -/
 def nameClash (items : List Item) : Bool :=
   items.any fun a => match a with
@@ -336,7 +397,9 @@ def handle (args : List String) (obs : String) : Option Reply := do
   let evalsS := if evalsT.isEmpty then "0" else ":".intercalate (evalsT.map toString)
   -- bench output is compared after collapsing runs of spaces (measured values are class tokens)
   let canon (t : String) : String :=
-    "".intercalate ((t.splitOn "\n").dropLast.map fun l => " ".intercalate ((l.splitOn " ").filter (· ≠ "")) ++ "\n")
+    "".intercalate ((t.splitOn "\n").dropLast.map fun l =>
+      let (pre, rest) := treePrefix l
+      pre ++ " ".intercalate ((rest.splitOn " ").filter (· ≠ "")) ++ "\n")
   let outTxt := if ps.cfg.action = .bench then canon r.out else r.out
   -- the run-time configuration as resolved from builder / command line / environment
   let actName := match ps.act with
@@ -452,6 +515,12 @@ def handle (args : List String) (obs : String) : Option Reply := do
        (if (ps.act = "list" ∨ ps.act = "listapi") ∧ runs.any (·.arg.isSome) ∧
            !(runs.filter (·.arg.isSome)).all (fun c => (implOut.splitOn "\n").any fun l => labelOf l == c.arg.getD "") then
           ["[C20] --list prints a benchmark with args as a bare leaf: its argument cases are missing from the tree (F9)"] else []) ++
+       -- C20: glyphs of the printed tree, judged on the text alone
+       (if ps.act ≠ "terse" ∧ (seg 'X') = "0" then
+          match treeGlyphsOk implOut with
+          | some why => ["[C20] the printed tree's glyphs do not show the true position of a row: " ++ why]
+          | none => []
+        else []) ++
        -- C17: the label printed for each executed argument case is the value the function received
        (if !listing then
           let bad := (List.range ex.length).any fun i =>
